@@ -20,6 +20,20 @@ CLAIMED = {
     },
 }
 
+CLAIMED["C04"] = {
+    "text": "TLC exhausts the lookup-hint machine of get_object inside EvalStack.tla (scopes, frames with every prologue, declarations, "
+            "two sites; invariant CacheInvisible: the cell reached equals by-name resolution) and, as executable reference, enumerates "
+            "layout programs (Layout.tla: one lambda body re-evaluated under different arrangements of locals - dynamic declarations via "
+            "eval(), free vs attribute call, captures, parameters, shadowed globals) with their by-name outputs; every case is replayed "
+            "into the real engine with hints enabled and disabled and both must equal the reference; a sample of runs is traced and TLC "
+            "checks every recorded get_object resolution against by-name resolution in the reconstructed stack.",
+    "note": "Reference = by-name lookup written in TLA+ (no cache concept); trusted: the printer in gen/checks/c04.py and hook H2's "
+            "hint-ignoring switch (itself compared with the reference). Exhaustive over the 62,720-case small family in the thorough tier "
+            "(a seeded third in quick) plus seeded random three-call cases.",
+    "technique": "TLA+ model checking (TLC) + TLC-generated cases replayed into the implementation + trace validation",
+    "design": "5 C04",
+}
+
 PENDING_REASON = "check not built yet in this session; planned (see DESIGN.md section 8)"
 
 ALL = [f"C{i:02d}" for i in range(1, 21)]
